@@ -102,7 +102,7 @@ CHECKS = {
     "C09": dict(
         pkg="c09", level="exploration", helpers=["vserver"],
         technique="property-based testing (rapid): generated authorized_keys files, offered keys, users, passwords and job configurations against the public-key callback in-process and against a real server over real SSH handshakes; reference predicate for who may log in; secrecy oracle for health sessions",
-        level_text="Generated authorized_keys texts (three key types, options, comments, blank and whitespace lines anywhere, CRLF, missing final newline) and every pairing of service users with passwords and job allow-lists are checked against the rule 'granted iff key listed / health password / job name of the right kind from an allowed address'; granted health sessions are sent read and map commands naming a planted secret, which must never come back.",
+        level_text="Generated authorized_keys texts (three key types, options, comments, blank and whitespace lines anywhere, CRLF, missing final newline) and every pairing of service users with passwords and job allow-lists are checked against the rule 'granted iff key listed / health password / job name of the right kind from an allowed address'; granted health sessions are sent read and map commands naming a planted secret, which must never come back. Key files are put in place the way tools do it (in place, by rename, keeping an old or the previous modification time), job names may exist in both job lists with different allow lists, and look-alike service user names are paired with valid credentials.",
         level_note="Only loopback addresses exist in the sandbox, so the deny side of AllowFrom is exercised with lists that do not contain loopback. 'Well-formed file' = every non-blank, non-comment line is a valid authorized_keys line.",
         tests=[
             dict(name="TestC09KeyCallback", quick=dict(checks=5000, timeout=600), thorough=dict(checks=60000, shards=8, timeout=3000)),
@@ -119,23 +119,23 @@ CHECKS = {
     "C13": dict(
         pkg="c13", level="exploration",
         technique="property-based testing (rapid), model-based: generated histories of sessions starting, queueing, draining and being cancelled over shared limiter channels, with the set of open files (/proc/self/fd) and the limiter occupancy compared with a counting-semaphore model after every step",
-        level_text="Real server handlers run in-process on harness-owned limiter channels of small capacity; sessions read files larger than every queue so that a read stays in progress until the harness drains it. After every generated step the number of files open must never exceed the limit, must equal the model's value at quiescence, tokens held must equal reads in progress, cancelled sessions must neither keep nor free a slot, and in the end every slot must be usable again.",
+        level_text="Real server handlers run in-process on harness-owned limiter channels of small capacity; sessions read files larger than every queue so that a read stays in progress until the harness drains it. After every generated step the number of files open must never exceed the limit, must equal the model's value at quiescence, tokens held must equal reads in progress, cancelled sessions must neither keep nor free a slot, and in the end every slot (cat and tail) must be usable again. Some histories rotate a followed file away while other follows queue; from then on only the limits themselves are asserted until everything is cancelled.",
         level_note="'In progress' is observed as 'file open by the process'. Schedules are sampled, not enumerated; with the verif tag a deterministic placement of the cancellation between limiter wait and acquisition is added in the thorough tier.",
         tests=[
             dict(name="TestC13History", quick=dict(checks=150, shards=6, timeout=900), thorough=dict(checks=800, shards=12, timeout=3400)),
         ]),
     "C07": dict(
         pkg="c07", level="exploration", bins=["dcat", "dgrep"], helpers=["vserver"],
-        technique="property-based testing (rapid): generated multi-server / multi-file layouts of tagged lines read by the real dcat/dgrep binaries from several real servers at once; validity oracle over every output line (whole line, right label, right number, per-source order, completeness)",
-        level_text="Up to six real server processes with distinct host labels each serve their own generated files (1 B to 30 KiB lines, up to 2000 lines) to one client; every line the client prints must be a well-formed log record or a REMOTE record whose content is exactly line n of the source its host and file labels name, with n running without gaps per source.",
+        technique="property-based testing (rapid): generated multi-server / multi-file layouts of tagged lines read by the real dcat/dgrep binaries from several real servers at once; validity oracle over every output line (whole line, right label, right number, per-source order, completeness), line numbers under grep context options compared with the grep reference model",
+        level_text="Up to six real server processes with distinct host labels each serve their own generated files (1 B to 70 KiB lines, up to 2000 lines; MaxLineLength 6000 on half of the servers so that long lines arrive as numbered pieces, the default elsewhere so that records span several transport reads) to one client; every line the client prints must be a well-formed log record or a REMOTE record whose content is exactly line n of the source its host and file labels name, with n running without gaps per source.",
         level_note="Relative speeds are varied through file sizes and line lengths only (schedules are sampled, not enumerated). Byte 0xAC is excluded from line content (open finding C01/delim-0xac). One glob per session, so the multi-command early shutdown (open finding of C02) is out of the picture.",
         tests=[
             dict(name="TestC07Interleave", quick=dict(checks=80, shards=6, timeout=900), thorough=dict(checks=400, shards=12, timeout=3400)),
         ]),
     "C17": dict(
         pkg="c17", level="exploration", bins=["dcat"], helpers=["vserver"],
-        technique="property-based testing (rapid), model-based: generated known_hosts files, contacted hosts and user answers against the real host-key callback and prompt (stdin/stdout replaced by pipes); reference model of who is let through; invariants over the rewritten file",
-        level_text="The real KnownHostsCallback is driven in-process: host key callbacks for generated sets of known, unknown and changed hosts run concurrently, the batched prompt is answered through a pipe, and afterwards the verdict of every callback and the rewritten known_hosts file are checked (parses, accepts the trusted hosts by name and address, unrelated entries byte-identical and in order, two new lines per trusted host, untouched after 'no').",
+        technique="property-based testing (rapid), model-based: generated known_hosts files, contacted hosts and user answers against the real host-key callback and prompt (stdin/stdout replaced by pipes); reference model of who is let through; invariants over the rewritten file; plus the real dcat binary against real servers with prepared known_hosts files (no command may reach an untrusted server)",
+        level_text="The real KnownHostsCallback is driven in-process: host key callbacks for generated sets of known, unknown and changed hosts run concurrently, the batched prompt is answered through a pipe, and afterwards the verdict of every callback and the rewritten known_hosts file are checked (parses, accepts the trusted hosts by name and address, unrelated entries byte-identical and in order, two new lines per trusted host, untouched after 'no'). End to end, the real dcat binary contacts 1..3 real servers whose keys are known / unknown / changed in the prepared file, with trust-all or an answer on stdin: a server that is not trusted delivers nothing and logs no command, a known or trust-all server is served, and the file is rewritten correctly or left byte-identical.",
         level_note="Lines longer than 64 KiB are outside the domain (x/crypto's knownhosts refuses such a file before dtail's rewrite can run). A key revoked in the file for a contacted host is outside the domain.",
         tests=[
             dict(name="TestC17Callback", quick=dict(checks=30, shards=8, timeout=900), thorough=dict(checks=500, shards=10, timeout=3400)),
@@ -152,7 +152,7 @@ CHECKS = {
         ]),
     "C06": dict(
         pkg="c06", level="exploration", bins=["dmap"], helpers=["vserver"],
-        technique="property-based testing (rapid): (a) concurrent delivery of real server-side aggregate messages into the real client-side merge with a spinning reporter, compared with the reference evaluator; (b) the real dmap binary serverless and against fresh server processes under generated file layouts, limits, command shapes, CPU load and hook-placed delays, final CSV compared with the reference evaluator; hook await actions carve out the schedule subspace free of the known defect, whose signature is recognised in the hook trace elsewhere",
+        technique="property-based testing (rapid): (a) concurrent delivery of real server-side aggregate messages into the real client-side merge with a spinning reporter, compared with the reference evaluator; (b) the real dmap binary serverless and against fresh server processes under generated file layouts, limits, command shapes, CPU load and hook-placed delays, final CSV compared with the reference evaluator (fixed and grammar-generated queries); hook await actions carve out the schedule subspace free of the known defect, whose signature is recognised in the hook trace elsewhere",
         level_text="Layer 1 releases one goroutine per simulated server at once, each pushing the messages the real server aggregator produced into its own real client aggregator over one shared global group set while a reporter spins, 25 rounds per case; the final CSV must equal the central evaluation. Layer 2 runs the real dmap binary over 1..130 files per server, 0..24 servers, limits below and above the file count, one glob or one command per file, with sleeps at the hooked aggregator / registration / limiter / merge points and CPU hogs; exit 0 within the deadline and totals equal to the central evaluation of all lines. In the clean schedule space two hook await actions let the server know what the client knows (how many files / commands follow), there every failure is a violation; in the free space a failing run must show the known defect's signature in its hook trace.",
         level_note="Schedules are sampled (load, hook delays), not enumerated. Termination is a bounded-response check (120 s, repeated once). The known finding 'aggregator-ends-early' (server cannot know that more files or commands follow) is suppressed only when the trace shows the aggregator's 'no more files' decision before all files were registered, or the session's shutdown before all commands arrived.",
         tests=[
@@ -162,8 +162,8 @@ CHECKS = {
         ]),
     "C02": dict(
         pkg="c02", level="exploration", bins=["dcat", "dgrep"], helpers=["vserver"],
-        technique="property-based testing (rapid): generated sessions of the real dcat/dgrep binaries (serverless and over SSH) whose output is consumed by a generated pacing reader, with hook-placed delays at the shutdown handshake and command loop; oracle = per-file projection of the output equals the selected lines, once, in order, exit 0, bounded termination",
-        level_text="Generated file sets with line counts around the internal queue capacities are read through the real client binaries while the harness consumes their stdout at a generated pace (tiny reads, small pipe, uniform slowness, stalls of up to 5.6 s placed at a fraction of the stream or just before its end); commands come as one glob, one per file or the same file twice, with limits that force queueing, and the verif hooks add delays at the shutdown handshake, between commands and around the limiter. The tagged lines delivered per file must be exactly the selected ones, once and in order, exit status 0, and the session must end by itself.",
+        technique="property-based testing (rapid): generated sessions of the real dcat/dgrep binaries (serverless and over SSH) whose output is consumed by a generated pacing reader, and of the real server handler in-process with the harness as a paced client, both with hook-placed delays at the shutdown handshake, command accounting and limiter; oracle = per-file projection of the output equals the selected lines, once, in order, exit 0 / close handshake offered, bounded termination",
+        level_text="Generated file sets with line counts around the internal queue capacities are read through the real client binaries while the harness consumes their stdout at a generated pace (tiny reads, small pipe, uniform slowness, stalls of up to 5.6 s placed at a fraction of the stream or just before its end); commands come as one glob, one per file or the same file twice, with limits that force queueing, and the verif hooks add delays at the shutdown handshake, between commands and around the limiter. The tagged lines delivered per file must be exactly the selected ones, once and in order, exit status 0, and the session must end by itself. A second layer plays the client against the real server handler in-process (no transport buffering, 16 B..32 KiB reads, pauses placed by message number, hook delays on the n-th queued line), where the lines received before the close handshake must be complete. Files are stored plain, gzip or zstd; a single file may lack its final newline; one shape stalls 3.5 s early in a large file so that the read outlasts the reader's 3 s housekeeping tick.",
         level_note="Termination is a bounded-response check (60 s + twice the generated pauses; a miss is re-examined with a fast consumer before it is reported). Schedules are sampled, not enumerated. The known finding 'session-ends-before-all-commands-arrived' is suppressed only for multi-command sessions whose hook trace shows the shutdown beginning before the last command had arrived.",
         tests=[
             dict(name="TestC02Witness", quick=dict(timeout=600), thorough=dict(timeout=600)),
@@ -172,8 +172,8 @@ CHECKS = {
         ]),
     "C04": dict(
         pkg="c04", level="exploration",
-        technique="property-based testing (rapid): generated append schedules (line contents, write() boundaries incl. inside lines and inside multi-byte characters, delays around the poll interval, filter, queue size, consumer pauses) against the real tail reader in-process; oracle = exact sequence equality with the appended complete lines (ample queue) / in-order subsequence with announced gaps (tiny queue)",
-        level_text="The server's tail reader is started on a harness-owned file; once /proc shows its descriptor positioned at the end of the pre-existing content, the harness appends generated lines through a generated sequence of write() calls and delays while a generated consumer takes lines from the delivery queue. With an ample queue the delivered lines must equal the complete appended (selected) lines byte for byte, once, in order, with nothing from before the follow and a partial line only after its completion; with a tiny queue the delivered lines must be an in-order subsequence and the first line after each gap must report a transmission percentage below 100.",
+        technique="property-based testing (rapid): generated append schedules (line contents up to 64 KiB, write() boundaries incl. inside lines and inside multi-byte characters, delays around the poll interval, filter, queue size, consumer pauses) against the real tail reader in-process, alone and with 2..4 readers sharing one delivery queue; oracle = exact sequence equality with the appended complete lines (ample queue) / in-order subsequence with announced gaps and a final line that must arrive (tiny queue)",
+        level_text="The server's tail reader is started on a harness-owned file; once /proc shows its descriptor positioned at the end of the pre-existing content, the harness appends generated lines through a generated sequence of write() calls and delays while a generated consumer takes lines from the delivery queue. With an ample queue the delivered lines must equal the complete appended (selected) lines byte for byte, once, in order, with nothing from before the follow and a partial line only after its completion; with a tiny queue the delivered lines must be an in-order subsequence and the first line after each gap must report a transmission percentage below 100; a line appended while the consumer is idle and the queue empty must arrive. A second test lets 2..4 followed files share one queue (as the follows of one session do) and judges every file through its source id.",
         level_note="Pre-existing content ends with a newline (what 'the line' is otherwise is not defined). Truncation/rotation is outside the statement. Schedules of writer, poller and consumer are sampled through generated delays, not enumerated.",
         tests=[
             dict(name="TestC04Follow", quick=dict(checks=10, shards=10, timeout=900), thorough=dict(checks=250, shards=10, timeout=3400)),
